@@ -1,5 +1,7 @@
 mod c06;
 mod c13;
+mod c14;
+mod c15;
 mod net;
 mod world;
 
@@ -9,5 +11,7 @@ fn main() {
     let mut checks: Vec<Box<dyn SubCheck>> = vec![];
     checks.extend(c06::checks());
     checks.extend(c13::checks());
+    checks.extend(c14::checks());
+    checks.extend(c15::checks());
     std::process::exit(vcore::driver("vp-e2e", checks));
 }
